@@ -143,6 +143,59 @@ def clipMask (width numZeros : Nat) : List K :=
 def clipWavenumbers (L padCols : Nat) (n : Int) (x : List (List K)) : Option (List (List K)) :=
   if n ≤ 0 then none else some (mulLast x (clipMask (L + padCols) (n.toNat + padCols)))
 
+/-! ### the tuning options of `FastSphericalHarmonics`
+
+`reverse_einsum_arg_order` makes every contraction call `einsum(…, rhs, lhs)`: in exact arithmetic
+every product is taken with its operands swapped (`…R` variants below).
+`stacked_fourier_transforms` selects the `'ism,…smj->…ij'` contraction against the reshaped `f`.
+`transform_precision` is a hint to XLA and does not occur in exact arithmetic; it is carried along
+so that statements can quantify over the whole option record. -/
+
+def scaleR (c : K) (v : List K) : List K := v.map (· * c)
+
+def vecMatR : List K → List (List K) → Nat → List K
+  | c :: cs, r :: rs, n => vadd (scaleR c r) (vecMatR cs rs n)
+  | _, _, n => zerosN n
+
+def matMulR (a b : List (List K)) (n : Nat) : List (List K) := a.map fun row => vecMatR row b n
+
+def invLegendreR (prow : List (List (List K))) (x : List (List K)) : List (List K) :=
+  List.zipWith (fun pm xm => pm.map fun pj => dotv xm pj) prow x
+
+def fwdFourierR (f wx : List (List K)) (nrows nlat : Nat) : List (List K) :=
+  (transposeM f nrows).map fun c => vecMatR c wx nlat
+
+def fwdLegendreR (prow : List (List (List K))) (fwx : List (List K)) (nl : Nat) : List (List K) :=
+  List.zipWith (fun pm vm => vecMatR vm pm nl) prow fwx
+
+structure Opts where
+  stacked : Bool
+  reverse : Bool
+  precision : String := "tensorfloat32"
+
+/-- `FastSphericalHarmonics.inverse_transform` under an option record -/
+def fastSynthOpt (o : Opts) (b : Basis K) (nlat : Nat) (x : List (List K)) : List (List K) :=
+  let il := if o.reverse then invLegendreR else invLegendre
+  let mm := if o.reverse then matMulR else matMul
+  let px0 := il b.p (evens x)
+  let px1 := il b.p (odds x)
+  if o.stacked then
+    List.zipWith vadd (mm (b.f.map evens) px0 nlat) (mm (b.f.map odds) px1 nlat)
+  else mm b.f (stackM px0 px1) nlat
+
+/-- `FastSphericalHarmonics.transform` under an option record -/
+def fastAnalysisOpt (o : Opts) (b : Basis K) (nrows nlat nl : Nat) (z : List (List K)) :
+    List (List K) :=
+  let ff := if o.reverse then fwdFourierR else fwdFourier
+  let fl := if o.reverse then fwdLegendreR else fwdLegendre
+  let wx := weight b.w z
+  if o.stacked then
+    let h := nrows / 2
+    stackM (fl b.p (ff (b.f.map evens) wx h nlat) nl) (fl b.p (ff (b.f.map odds) wx h nlat) nl)
+  else
+    let fwx := ff b.f wx nrows nlat
+    stackM (fl b.p (evens fwx) nl) (fl b.p (odds fwx) nl)
+
 /-! ### latitude derivatives (`sqrt` external) -/
 
 /-- `jax_numpy_utils.shift(v, -1)`: `out[l] = v[l+1]`, zero at the end -/
